@@ -381,6 +381,21 @@ fn upgrade_open_crashes(seed: u64, thorough: bool, shard: Shard, cov: &mut Cov, 
                 continue;
             }
         };
+        if i % 3 == 1 {
+            // a database with a long free list: a 2.5 MiB snapshot replaced by a small one (pinned storage API)
+            use pinned_core::Storage as _;
+            if let (Ok(st), Some(c)) = (pinned_sqlite::SqliteStorage::new(src.path()), exp.clients.first()) {
+                if let Some(v) = c.versions.last().map(|v| v.vid) {
+                    for len in [2_600_000usize, 300] {
+                        if let Ok(mut t) = st.txn(c.id) {
+                            let _ = t.set_snapshot(pinned_core::Snapshot { version_id: v, timestamp: chrono::Utc::now(), versions_since: 0 }, vec![5u8; len]);
+                            let _ = t.commit();
+                        }
+                    }
+                    cov.hit("upgrade-open:database-with-long-free-list".into());
+                }
+            }
+        }
         let clients: Vec<Uuid> = exp.clients.iter().map(|c| c.id).collect();
         let ids: Vec<Uuid> = exp.clients.iter().flat_map(|c| c.versions.iter().flat_map(|v| [v.vid, v.parent])).collect();
         // the logical content as the pinned writer left it (read from a copy)
@@ -451,6 +466,9 @@ fn upgrade_open_crashes(seed: u64, thorough: bool, shard: Shard, cov: &mut Cov, 
                 }
             }
             shadow.apply(ev);
+        }
+        if let Some(why) = shadow.unexplained(work.path()) {
+            errors.push(format!("first start-up of the current code on a directory written by the pinned release: the data directory is not what the recorded file I/O produces ({why}); the storage did file I/O that bypasses SQLite's VFS (direct writes or renames), which the crash model cannot follow"));
         }
         let _ = std::fs::remove_dir_all(work.path());
         // ---- the real executable killed during start-up (one worker, large directory)
